@@ -123,6 +123,8 @@ def gen_program(rng, edge=False):
         drawn = rng.sample(cands, min(len(cands), rng.randint(1, 3)))
         factors.insert(rng.randint(0, len(factors)), {"k": "hier", "mean": mean, "sigma": sigma, "drawn": drawn})
     prog = {"priors": priors, "factors": factors, "ipf": rng.random() < 0.6}
+    if rng.random() < 0.25 and any(f["k"] == "hier" and len(f["drawn"]) >= 2 for f in factors):
+        prog["late_drawn"] = True
     if rng.random() < 0.35:
         prog["n_ctor"] = rng.randint(0, len(factors))  # the remaining factors are attached with .add()
         # ... after the partly built model was already used (graph / approximation asked for)
@@ -170,6 +172,7 @@ def build(prog):
         return B.pool[a[1]] if a[0] == "p" else float(a[1])
 
     top = []
+    late = []
     for f in prog["factors"]:
         if f["k"] == "analysis":
             if f["shape"] == "model":
@@ -181,7 +184,11 @@ def build(prog):
             top.append(g.AnalysisFactor(model, Const()))
         else:
             h = g.HierarchicalFactor(af.GaussianPrior, mean=arg(f["mean"]), sigma=arg(f["sigma"]))
-            for d in f["drawn"]:
+            drawn = list(f["drawn"])
+            if prog.get("late_drawn") and len(drawn) >= 2:
+                # the last drawn variable is declared when the factor already sits in the (used) collection
+                late.append((h, drawn.pop()))
+            for d in drawn:
                 h.add_drawn_variable(B.pool[d])
             top.append(h)
     B.top = top
@@ -200,6 +207,13 @@ def build(prog):
         except Exception:  # noqa: an empty / partial graph may refuse; irrelevant for what follows
             pass
         B.fg.add(t)
+    if late:
+        try:
+            B.fg.mean_field_approximation()  # the collection has been used before the declaration
+        except Exception:  # noqa
+            pass
+        for h, d in late:
+            h.add_drawn_variable(B.pool[d])
     B.places = places_of(prog)
     B.n_model = len(B.places)
     B.order = dedup([v for ps in B.places for v in ps])
